@@ -42,6 +42,8 @@ type Script struct {
 	ViaCtx  bool     `json:"viactx"`           // handler sets metadata through grpc.SetHeader(ctx,…)
 	Fault   string   `json:"fault"`            // "" | clone-fail:<n> | copy-fail:<n>
 	Gates   []string `json:"gates,omitempty"`
+	Chain   bool     `json:"chain,omitempty"` // free mode, unary: the calls run one after the other; every second one succeeds
+	Slow    bool     `json:"slow,omitempty"`  // httpmem, free mode: replies trickle in (see memTransport)
 }
 
 func (s *Script) respStream() bool { return s.Kind == "sstream" || s.Kind == "bidi" }
